@@ -88,6 +88,7 @@ OPS = {
 }
 
 SIZES = {}
+INFO = {}
 
 
 def wf_and_lets(op, d):
@@ -116,9 +117,9 @@ pub open spec fn want_%(op)s<F: FileSystem>(fs: &F, hd: InHeader, cx: Context, r
 }
 pub open spec fn reply_%(op)s<F: FileSystem>(fs: &F, hd: InHeader, rem: Seq<u8>, b: Seq<u8>) -> bool {
     if wf_%(op)s(hd, rem) {
-        b == (match fs.res_%(call)s() { Ok(v) => %(ok)s, Err(e) => err_reply(hd.unique, e) })
+        b == (match fs.%(resfn)s() { Ok(v) => %(ok)s, Err(e) => err_reply(hd.unique, e) })
     } else { is_err_reply(hd.unique, b) }
-}''' % dict(op=op, lets=lets, wf=wf, call=call, args=', '.join(d['args']), ok=d['ok'])
+}''' % dict(op=op, lets=lets, wf=wf, call=call, args=', '.join(d['args']), ok=d['ok'], resfn=INFO[call]['resfn'])
     return txt
 
 
@@ -140,6 +141,8 @@ NAME_ERR_SPLICE = None
 def unit(root='/repo'):
     notes = []
     trait_txt, info, _ = fsmodel.gen_trait(root, notes, server=True)
+    INFO.clear()
+    INFO.update(info)
     items = []
     items += wiremodel.items(root, [ABI, VABI], ['FileLock'])     # emitted as WireFileLock below
     # rename the wire FileLock (abi) to WireFileLock: src/api/filesystem/mod.rs has its own FileLock
@@ -152,6 +155,8 @@ def unit(root='/repo'):
     for it in w:
         if isinstance(it, Copy) and ('LkIn' in it.regex or 'LkOut' in it.regex):
             it.subst.append(('FileLock', 'WireFileLock'))
+        elif isinstance(it, Raw) and ('zero_LkIn' in it.text or 'zero_LkOut' in it.text):
+            it.text = it.text.replace('zero_FileLock', 'zero_WireFileLock').replace('<FileLock as Default>', '<WireFileLock as Default>')
     items += w
     cache = {}
     for n in WIRE:
@@ -231,7 +236,7 @@ impl<'a, S: BitmapSlice> ZeroCopyReader for ZcReader<'a, S> { }
              'final(self).w.frame_same(&old(self).w)']
     ctxb = [
         Fn(SYNC, CTX, 'reply_ok',
-           requires=REPLY_COMMON + ['data is Some ==> data->Some_0@.len() < 0x4000_0000_0000_0000', 'T::ssize() < 0x1_0000',
+           requires=REPLY_COMMON + ['T::ssize() < 0x1_0000',
                                     'emit_ok(old(self).w.id@, ok_reply(old(self).in_header.unique, (match out { Some(v) => v.sbytes(), None => Seq::<u8>::empty() }), (match data { Some(v) => v@, None => Seq::<u8>::empty() }))) // [C03.reply_ok.bytes]'],
            ensures=FRAME + ['''({ let m = ok_reply(old(self).in_header.unique, (match out { Some(v) => v.sbytes(), None => Seq::<u8>::empty() }), (match data { Some(v) => v@, None => Seq::<u8>::empty() }));
              match r { Ok(n) => final(self).w.emitted@.len() == 1 && final(self).w.emitted@[0] == m && n == m.len(), Err(_) => final(self).w.emitted@.len() == 0 } }) // [C01.reply_ok.one]'''],
@@ -242,6 +247,7 @@ impl<'a, S: BitmapSlice> ZeroCopyReader for ZcReader<'a, S> { }
                      'proof { axiom_slice_len(data2); axiom_slice_len(data3); if 16 + data2@.len() + data3@.len() <= 0xffff_ffff { lemma_ok_reply_frame(self.in_header.unique, data2@, data3@); } }'),
                     ('            unique: self.unique(),\n        };', 'after',
                      '''proof {
+            reveal(ok_reply);
             let m = ok_reply(self.in_header.unique, data2@, data3@);
             assert(m =~= header.sbytes() + data2@ + data3@);
             if data2@.len() == 0 { assert(m =~= header.sbytes() + data3@); }
@@ -254,7 +260,7 @@ impl<'a, S: BitmapSlice> ZeroCopyReader for ZcReader<'a, S> { }
                      'uniq(old(self).w.id@) == old(self).in_header.unique', 'may_reply(old(self).w.id@)', 'err_ok(err)',
                      'emit_ok(old(self).w.id@, err_reply(old(self).in_header.unique, err)) // [C03.reply_error.bytes]'],
            ensures=FRAME + ['''match r { Ok(n) => final(self).w.emitted@.len() == 1 && final(self).w.emitted@[0] == err_reply(old(self).in_header.unique, err) && n == 16, Err(_) => final(self).w.emitted@.len() == 0 } // [C01.reply_error.one]'''],
-           splices=[('^', 'after', 'broadcast use axiom_sbytes_len, axiom_decode_encode; proof { lemma_err_reply_frame(self.in_header.unique, err); }'),
+           splices=[('^', 'after', 'broadcast use axiom_sbytes_len, axiom_decode_encode; proof { lemma_err_reply_frame(self.in_header.unique, err); reveal(errno_reply); }'),
                     ('.unwrap_or_else(|| encode_io_error_kind(err.kind()))', 'replace',
                      '.unwrap_or_else(|| -> (k: i32) ensures k == spec_kind_errno(err.skind()) { encode_io_error_kind(err.kind()) })'),
                     ('|_v|', 'closure', '|_v: usize| -> (q: usize) ensures q == 16')],
@@ -285,7 +291,11 @@ impl<'a, S: BitmapSlice> ZeroCopyReader for ZcReader<'a, S> { }
     for op, d in OPS.items():
         if only and op not in only.split(','):
             continue
-        spl = [('^', 'after', 'broadcast use axiom_sbytes_len, axiom_decode_encode;')]
+        spl = [('^', 'after', 'broadcast use axiom_sbytes_len, lemma_err_reply_frame; let ghost rem0 = ctx.r.rem@; let ghost hd0 = ctx.in_header;')]
+        if d.get('name'):
+            sz = SIZES[d['body']] if d.get('body') else 0
+            spl.append(('ServerUtil::get_message_body(&mut ctx.r, &ctx.in_header, %s)?;' % ('size_of::<%s>()' % d['body'] if d.get('body') else '0'), 'after',
+                        'proof { assert(buf@ =~= rem0.subrange(%d, %d + (hd0.len as int - 40 - %d))); }' % (sz, sz, sz)))
         spl += HANDLER_SPLICES.get(op, [])
         hs.append(Fn(SYNC, SRV, op, requires=handler_contract(op), ensures=[], splices=spl, props=['C01'], canary=True))
     items.append(Group('impl<F: FileSystem> Server<F> {', hs))
@@ -308,6 +318,7 @@ pub proof fn lemma_ok_reply_frame(u: u64, d2: Seq<u8>, d3: Seq<u8>)
             ok_reply(u, d2, d3) =~= hdr_bytes(16 + d2.len() + d3.len(), 0, u) + (d2 + d3),
 {
     broadcast use axiom_sbytes_len, axiom_decode_encode;
+    reveal(ok_reply); reveal(frame_ok);
     let h = OutHeader { len: (16 + d2.len() + d3.len()) as u32, error: 0, unique: u };
     let m = ok_reply(u, d2, d3);
     assert(h.sbytes().len() == 16);
@@ -321,11 +332,13 @@ pub broadcast proof fn lemma_ios_concat(s: Seq<IoSlice<'_>>)
     if s.len() == 2 { assert(s.skip(1).skip(1).len() == 0); assert(s.skip(1)[0] == s[1]); }
     if s.len() == 3 { assert(s.skip(1).skip(1).skip(1).len() == 0); assert(s.skip(1)[0] == s[1]); assert(s.skip(1).skip(1)[0] == s[2]); }
 }
-pub proof fn lemma_err_reply_frame(u: u64, e: io::Error)
+pub broadcast proof fn lemma_err_reply_frame(u: u64, e: io::Error)
     requires err_ok(e)
-    ensures frame_ok(u, err_reply(u, e)), err_reply(u, e).len() == 16, is_err_reply(u, err_reply(u, e)),   // [C01.frame.err_reply]
+    ensures frame_ok(u, #[trigger] err_reply(u, e)), err_reply(u, e).len() == 16, is_err_reply(u, err_reply(u, e)),   // [C01.frame.err_reply]
 {
     broadcast use axiom_sbytes_len, axiom_decode_encode;
+    reveal(errno_reply); reveal(frame_ok); reveal(is_err_reply);
+    assert(0 < err_code(e)) by { if e.os_code() is None { } }
     let h = OutHeader { len: 16u32, error: (-err_code(e)) as i32, unique: u };
     assert(h.sbytes().len() == 16);
     assert(err_reply(u, e).subrange(0, 16) =~= h.sbytes());
